@@ -3,6 +3,383 @@ From Coq Require Import List Arith NArith PArith Bool FMapPositive Lia.
 From CelloV Require Import HeapGraph MarkSweep.
 Import ListNotations.
 
+(* ------------------------------------------------------------------ finite maps *)
+Lemma nget_nset_same {A} (w : word) (a : A) m : w <> 0%N -> nget w (nset w a m) = Some a.
+Proof. destruct w; [congruence|]. intros _. simpl. apply PM.gss. Qed.
+
+Lemma nget_nset_other {A} (w w' : word) (a : A) m : w <> w' -> nget w (nset w' a m) = nget w m.
+Proof.
+  destruct w, w'; simpl; intros H; try reflexivity.
+  apply PM.gso. congruence.
+Qed.
+
+Lemma nget_ndel_same {A} (w : word) (m : nmap A) : nget w (ndel w m) = None.
+Proof. destruct w; simpl; [reflexivity|]. apply PM.grs. Qed.
+
+Lemma nget_ndel_other {A} (w w' : word) (m : nmap A) : w <> w' -> nget w (ndel w' m) = nget w m.
+Proof.
+  destruct w, w'; simpl; intros H; try reflexivity.
+  apply PM.gro. congruence.
+Qed.
+
+Lemma nget_nempty {A} (w : word) : nget w (@nempty A) = None.
+Proof. destruct w; simpl; [reflexivity|]. apply PM.gempty. Qed.
+
+Lemma registered_nonzero rg w : registered rg w = true -> w <> 0%N.
+Proof. unfold registered. destruct w; simpl; congruence. Qed.
+
+Lemma is_root_registered rg w : is_root rg w = true -> registered rg w = true.
+Proof. unfold is_root, registered. destruct (nget w rg); congruence. Qed.
+
+Lemma marked_nempty w : marked nempty w = false.
+Proof. unfold marked. rewrite nget_nempty. reflexivity. Qed.
+
+Lemma marked_setmark_same m w : w <> 0%N -> marked (setmark w m) w = true.
+Proof. intros H. unfold marked, setmark. rewrite nget_nset_same by assumption. reflexivity. Qed.
+
+Lemma marked_setmark_other m w w' : w <> w' -> marked (setmark w' m) w = marked m w.
+Proof. intros H. unfold marked, setmark. rewrite nget_nset_other by assumption. reflexivity. Qed.
+
+Lemma marked_setmark_mono m w w' : marked m w = true -> marked (setmark w' m) w = true.
+Proof.
+  intros H. destruct (N.eq_dec w w') as [->|Hn].
+  - destruct (N.eq_dec w' 0%N) as [->|Hz].
+    + unfold marked in H. simpl in H. discriminate.
+    + apply marked_setmark_same; assumption.
+  - rewrite marked_setmark_other; assumption.
+Qed.
+
+Definition sub (m m' : marks) : Prop := forall w, marked m w = true -> marked m' w = true.
+
+Lemma sub_refl m : sub m m. Proof. intros w H; exact H. Qed.
+Lemma sub_trans m1 m2 m3 : sub m1 m2 -> sub m2 m3 -> sub m1 m3.
+Proof. intros H1 H2 w H. auto. Qed.
+Lemma sub_setmark m w : sub m (setmark w m).
+Proof. intros x H. apply marked_setmark_mono; assumption. Qed.
+
+(* induction principle for the nested type *)
+Section ContentsInd.
+  Variable P : contents -> Prop.
+  Hypothesis HW : forall ws, P (Words ws).
+  Hypothesis HE : forall es, Forall P es -> P (Elems es).
+  Hypothesis HI : forall ps, P (Items ps).
+  Hypothesis HL : P NoPtr.
+  Fixpoint contents_ind' (c : contents) : P c :=
+    match c with
+    | Words ws => HW ws
+    | Elems es => HE es ((fix go (l : list contents) : Forall P l :=
+                            match l with
+                            | [] => Forall_nil P
+                            | e :: r => Forall_cons e (contents_ind' e) (go r)
+                            end) es)
+    | Items ps => HI ps
+    | NoPtr => HL
+    end.
+End ContentsInd.
+
+Lemma bind_ok {A B} (o : outcome A) (f : A -> outcome B) b :
+  bind o f = Ok b -> exists a, o = Ok a /\ f a = Ok b.
+Proof. destruct o; simpl; intros H; try discriminate. eauto. Qed.
+
+Lemma fold_o_cons {A S} (f : A -> S -> outcome S) a l s :
+  fold_o f (a :: l) s = bind (f a s) (fold_o f l).
+Proof. reflexivity. Qed.
+
+Lemma filter_length_le {A} (f g : A -> bool) l :
+  (forall x, In x l -> f x = true -> g x = true) -> length (filter f l) <= length (filter g l).
+Proof.
+  induction l as [|a l IH]; intros H; simpl; [lia|].
+  assert (IH' : length (filter f l) <= length (filter g l)) by (apply IH; intros; apply H; simpl; auto).
+  destruct (f a) eqn:Fa.
+  - rewrite (H a (or_introl eq_refl) Fa). simpl. lia.
+  - destruct (g a); simpl; lia.
+Qed.
+
+Lemma filter_length_lt {A} (f g : A -> bool) l w :
+  (forall x, In x l -> f x = true -> g x = true) -> In w l -> g w = true -> f w = false ->
+  length (filter f l) < length (filter g l).
+Proof.
+  induction l as [|a l IH]; intros H Hin Gw Fw; simpl; [destruct Hin|].
+  assert (Hle : length (filter f l) <= length (filter g l)) by (apply filter_length_le; intros; apply H; simpl; auto).
+  destruct Hin as [->|Hin].
+  - rewrite Fw, Gw. simpl. lia.
+  - assert (IH' : length (filter f l) < length (filter g l)) by (apply IH; auto; intros; apply H; simpl; auto).
+    destruct (f a) eqn:Fa.
+    + rewrite (H a (or_introl eq_refl) Fa). simpl. lia.
+    + destruct (g a); simpl; lia.
+Qed.
+
+(* ------------------------------------------------------------------ the depth-first lemma *)
+Section Dfs.
+  Variable tls_recurses : bool.
+  Variable h : heap.
+  Variable rg : registry.
+  Variables (minptr maxptr : N).
+  Hypothesis Hrange : range_ok rg minptr maxptr.
+
+  Notation pts := (pts h rg).
+  Notation reg := (registered rg).
+
+  Lemma prefilter_registered w : reg w = true -> prefilter minptr maxptr w = true.
+  Proof.
+    intros H. destruct (Hrange w H) as (H1 & H2 & H3). unfold prefilter.
+    apply N.eqb_eq in H1. apply N.leb_le in H2. apply N.leb_le in H3.
+    rewrite H1, H2, H3. reflexivity.
+  Qed.
+
+  (* every entry marked by the step m -> m' has all its registered successors marked in m' *)
+  Definition newly_closed (m m' : marks) : Prop :=
+    forall p, marked m' p = true -> marked m p = false ->
+      forall c q, nget p h = Some c -> pts c q -> reg q = true -> marked m' q = true.
+
+  Lemma newly_closed_refl m : newly_closed m m.
+  Proof. intros p H1 H2. congruence. Qed.
+
+  Lemma newly_closed_trans m1 m2 m3 :
+    sub m2 m3 -> newly_closed m1 m2 -> newly_closed m2 m3 -> newly_closed m1 m3.
+  Proof.
+    intros S23 N12 N23 p H3 H1 c q Hc Hp Hq.
+    destruct (marked m2 p) eqn:E2.
+    - apply S23. eapply N12; eauto.
+    - eapply N23; eauto.
+  Qed.
+
+  Definition step_ok (m m' : marks) : Prop := sub m m' /\ newly_closed m m'.
+
+  Lemma step_ok_refl m : step_ok m m.
+  Proof. split; [apply sub_refl|apply newly_closed_refl]. Qed.
+
+  Lemma step_ok_trans m1 m2 m3 : step_ok m1 m2 -> step_ok m2 m3 -> step_ok m1 m3.
+  Proof.
+    intros [S12 N12] [S23 N23]. split; [eapply sub_trans; eauto|eapply newly_closed_trans; eauto].
+  Qed.
+
+  (* what a tracer of contents must deliver *)
+  Definition covers (c : contents) (m : marks) : Prop :=
+    forall q, pts c q -> reg q = true -> marked m q = true.
+
+  Definition rec_ok (rec : contents -> marks -> outcome marks) : Prop :=
+    forall c m m', rec c m = Ok m' -> step_ok m m' /\ covers c m'.
+
+  Lemma fold_o_ok {A} (f : A -> marks -> outcome marks) (Q : A -> marks -> Prop) (l : list A) :
+    (forall a m m', In a l -> f a m = Ok m' -> step_ok m m' /\ Q a m') ->
+    (forall a m m', Q a m -> sub m m' -> Q a m') ->
+    forall m m', fold_o f l m = Ok m' -> step_ok m m' /\ forall a, In a l -> Q a m'.
+  Proof.
+    intros Hf Hmono. induction l as [|a l IH]; intros m m' H.
+    - simpl in H. inversion H; subst. split; [apply step_ok_refl|]. intros a [].
+    - rewrite fold_o_cons in H. apply bind_ok in H. destruct H as (m1 & H1 & H2).
+      destruct (Hf a m m1 (or_introl eq_refl) H1) as [S1 Q1].
+      assert (Hf' : forall a0 m0 m0', In a0 l -> f a0 m0 = Ok m0' -> step_ok m0 m0' /\ Q a0 m0')
+        by (intros; apply Hf; simpl; auto).
+      destruct (IH Hf' m1 m' H2) as [S2 Q2].
+      split; [eapply step_ok_trans; eauto|].
+      intros b [<-|Hb]; [|auto].
+      eapply Hmono; [exact Q1|apply S2].
+  Qed.
+
+  Section Level.
+    Variable rec : contents -> marks -> outcome marks.
+    Hypothesis Hrec : rec_ok rec.
+
+    Lemma descend_marked_ok w m m' :
+      reg w = true -> marked m w = false ->
+      descend h rec w (setmark w m) = Ok m' -> step_ok m m' /\ marked m' w = true.
+    Proof.
+      intros Hw Hm H. unfold descend in H. destruct (nget w h) as [c|] eqn:Hc; [|discriminate].
+      destruct (Hrec _ _ _ H) as [[S N] C].
+      pose proof (registered_nonzero _ _ Hw) as Hnz.
+      assert (Hmw : marked m' w = true) by (apply S; apply marked_setmark_same; assumption).
+      split; [|assumption]. split.
+      - eapply sub_trans; [apply sub_setmark|exact S].
+      - intros p Hp' Hp c' q Hc' Hpts Hq.
+        destruct (N.eq_dec p w) as [->|Hne].
+        + rewrite Hc in Hc'. inversion Hc'; subst c'. apply C; assumption.
+        + eapply N; eauto. rewrite marked_setmark_other; assumption.
+    Qed.
+
+    Lemma mark_item_ok w m m' :
+      mark_item h rg minptr maxptr rec w m = Ok m' ->
+      step_ok m m' /\ (reg w = true -> marked m' w = true).
+    Proof.
+      unfold mark_item. intros H.
+      destruct (reg w) eqn:Hw.
+      - rewrite (prefilter_registered w Hw) in H.
+        destruct (marked m w) eqn:Hm.
+        + inversion H; subst. split; [apply step_ok_refl|auto].
+        + destruct (descend_marked_ok w m m' Hw Hm H) as [S M]. split; auto.
+      - assert (m' = m) by (destruct (prefilter minptr maxptr w); inversion H; reflexivity). subst.
+        split; [apply step_ok_refl|intros; congruence].
+    Qed.
+
+    (* what handing the item pointer p to GC_Mark_And_Recurse must deliver *)
+    Definition item_covers (p : word) (m : marks) : Prop :=
+      (reg p = true -> marked m p = true) /\
+      (reg p = false -> forall c, nget p h = Some c -> covers c m).
+
+    Lemma mark_and_recurse_ok p m m' :
+      mark_and_recurse true h rg minptr maxptr rec p m = Ok m' ->
+      step_ok m m' /\ item_covers p m'.
+    Proof.
+      unfold mark_and_recurse. intros H. destruct (reg p) eqn:Hp.
+      - destruct (mark_item_ok _ _ _ H) as [S M]. split; [exact S|]. split; [auto|intros; congruence].
+      - unfold descend in H. destruct (nget p h) as [c|] eqn:Hc; [|discriminate].
+        destruct (Hrec _ _ _ H) as [S C]. split; [exact S|]. split; [intros; congruence|].
+        intros _ c' Hc'. rewrite Hc in Hc'. inversion Hc'; subst. exact C.
+    Qed.
+
+    Lemma covers_mono c m m' : covers c m -> sub m m' -> covers c m'.
+    Proof. intros C S q Hq Hr. apply S. apply C; assumption. Qed.
+
+    Lemma trace_with_ok : rec_ok (trace_with true h rg minptr maxptr rec).
+    Proof.
+      intros c. induction c as [ws|es IH|ps|] using contents_ind'; intros m m' H; cbn [trace_with] in H.
+      - (* Words *)
+        assert (H1 : forall a m0 m0', In a ws -> mark_item h rg minptr maxptr rec a m0 = Ok m0' ->
+                       step_ok m0 m0' /\ (reg a = true -> marked m0' a = true))
+          by (intros a m0 m0' _ Ha; apply mark_item_ok; exact Ha).
+        assert (H2 : forall (a : word) m0 m0', (reg a = true -> marked m0 a = true) -> sub m0 m0' ->
+                       (reg a = true -> marked m0' a = true))
+          by (intros a m0 m0' Ha Hs Hr; apply Hs; auto).
+        destruct (fold_o_ok _ _ ws H1 H2 m m' H) as [S Q].
+        split; [exact S|]. intros q Hq Hr. inversion Hq; subst. apply Q; assumption.
+      - (* Elems *)
+        assert (H1 : forall a m0 m0', In a es -> trace_with true h rg minptr maxptr rec a m0 = Ok m0' ->
+                       step_ok m0 m0' /\ covers a m0')
+          by (intros a m0 m0' Ha Hf; rewrite Forall_forall in IH; apply (IH a Ha); exact Hf).
+        assert (H2 : forall a m0 m0', covers a m0 -> sub m0 m0' -> covers a m0')
+          by (intros a m0 m0'; apply covers_mono).
+        destruct (fold_o_ok _ _ es H1 H2 m m' H) as [S Q].
+        split; [exact S|]. intros q Hq Hr. inversion Hq; subst. eapply Q; eauto.
+      - (* Items *)
+        assert (H1 : forall a m0 m0', In a ps -> mark_and_recurse true h rg minptr maxptr rec a m0 = Ok m0' ->
+                       step_ok m0 m0' /\ item_covers a m0')
+          by (intros a m0 m0' _ Ha; apply mark_and_recurse_ok; exact Ha).
+        assert (H2 : forall a m0 m0', item_covers a m0 -> sub m0 m0' -> item_covers a m0').
+        { intros a m0 m0' [C1 C2] Hs. split.
+          - intros Hr. apply Hs. auto.
+          - intros Hr c0 Hc0. eapply covers_mono; eauto. }
+        destruct (fold_o_ok _ _ ps H1 H2 m m' H) as [S Q].
+        split; [exact S|]. intros q Hq Hr. inversion Hq; subst.
+        + destruct (Q q H3) as [C1 _]. auto.
+        + destruct (Q p H3) as [_ C2]. eapply C2; eauto.
+      - inversion H; subst. split; [apply step_ok_refl|]. intros q Hq. inversion Hq.
+    Qed.
+
+    Lemma root_step_ok p m m' :
+      root_step h rg rec p m = Ok m' -> step_ok m m' /\ (is_root rg p = true -> marked m' p = true).
+    Proof.
+      unfold root_step. intros H. destruct (is_root rg p) eqn:Hr; simpl in H.
+      - destruct (marked m p) eqn:Hm; simpl in H.
+        + inversion H; subst. split; [apply step_ok_refl|auto].
+        + pose proof (is_root_registered _ _ Hr) as Hreg.
+          destruct (descend_marked_ok p m m' Hreg Hm H) as [S M]. split; auto.
+      - inversion H; subst. split; [apply step_ok_refl|intros; congruence].
+    Qed.
+  End Level.
+
+  Lemma trace_ok : forall fuel, rec_ok (trace true h rg minptr maxptr fuel).
+  Proof.
+    induction fuel as [|f IH].
+    - intros c m m' H. discriminate.
+    - cbn [trace]. apply trace_with_ok. exact IH.
+  Qed.
+End Dfs.
+
+(* ------------------------------------------------------------------ completeness of mark *)
+Section Complete.
+  Variable h : heap.
+  Variable rg : registry.
+  Variables (minptr maxptr : N).
+  Hypothesis Hrange : range_ok rg minptr maxptr.
+  Variable order : list word.
+  Hypothesis Horder : order_ok rg order.
+
+  Lemma mark_complete_lemma fuel tls stack m' :
+    mark true true h rg minptr maxptr fuel order tls stack nempty = Ok m' ->
+    forall q, reach h rg tls stack q -> registered rg q = true -> marked m' q = true.
+  Proof.
+    intros H. unfold mark in H. destruct order as [|o0 ord'] eqn:Eo.
+    - (* nothing is registered *)
+      intros q _ Hq. destruct Horder as [_ Hin]. apply Hin in Hq. destruct Hq.
+    - rewrite <- Eo in *. clear Eo o0 ord'.
+      set (rec := trace true h rg minptr maxptr fuel) in *.
+      assert (Hrec : rec_ok h rg rec) by (apply trace_ok; assumption).
+      apply bind_ok in H. destruct H as (m1 & H1 & H). apply bind_ok in H. destruct H as (m2 & H2 & H3).
+      (* TLS pass *)
+      assert (T1 : forall a m0 m0', In a tls -> trace_with true h rg minptr maxptr rec a m0 = Ok m0' ->
+                     step_ok h rg m0 m0' /\ covers h rg a m0')
+        by (intros a m0 m0' _ Ha; eapply trace_with_ok; eauto).
+      assert (T2 : forall a m0 m0', covers h rg a m0 -> sub m0 m0' -> covers h rg a m0')
+        by (intros a m0 m0'; apply covers_mono).
+      destruct (fold_o_ok h rg _ _ tls T1 T2 _ _ H1) as [S1 Q1].
+      (* root pass *)
+      assert (R1 : forall a m0 m0', In a order -> root_step h rg rec a m0 = Ok m0' ->
+                     step_ok h rg m0 m0' /\ (is_root rg a = true -> marked m0' a = true))
+        by (intros a m0 m0' _ Ha; eapply root_step_ok; eauto).
+      assert (R2 : forall (a : word) m0 m0', (is_root rg a = true -> marked m0 a = true) -> sub m0 m0' ->
+                     (is_root rg a = true -> marked m0' a = true))
+        by (intros a m0 m0' Ha Hs Hr; apply Hs; auto).
+      destruct (fold_o_ok h rg _ _ order R1 R2 _ _ H2) as [S2 Q2].
+      (* stack pass *)
+      assert (K1 : forall a m0 m0', In a stack -> mark_item h rg minptr maxptr rec a m0 = Ok m0' ->
+                     step_ok h rg m0 m0' /\ (registered rg a = true -> marked m0' a = true))
+        by (intros a m0 m0' _ Ha; eapply mark_item_ok; eauto).
+      assert (K2 : forall (a : word) m0 m0', (registered rg a = true -> marked m0 a = true) -> sub m0 m0' ->
+                     (registered rg a = true -> marked m0' a = true))
+        by (intros a m0 m0' Ha Hs Hr; apply Hs; auto).
+      destruct (fold_o_ok h rg _ _ stack K1 K2 _ _ H3) as [S3 Q3].
+      assert (Sall : step_ok h rg nempty m') by (eapply step_ok_trans; [eapply step_ok_trans; eauto|eauto]).
+      destruct Sall as [_ Nall].
+      assert (Closed : forall p, marked m' p = true -> forall c q, nget p h = Some c -> pts h rg c q ->
+                         registered rg q = true -> marked m' q = true)
+        by (intros p Hp; eapply Nall; [exact Hp|apply marked_nempty]).
+      intros q Hreach. induction Hreach as [e q He Hp|p c q Hr Hc Hp|q Hs|p c q Hreach IH Hrp Hc Hp]; intros Hq.
+      + apply S3, S2. eapply Q1; eauto.
+      + eapply Closed; eauto. apply S3. apply Q2; [|exact Hr].
+        destruct Horder as [_ Hin]. apply Hin. apply is_root_registered; assumption.
+      + apply Q3; assumption.
+      + eapply Closed; eauto.
+  Qed.
+End Complete.
+
+(* ------------------------------------------------------------------ sweep *)
+Section Sweep.
+  Variable rg : registry.
+
+  Lemma registered_after_dels fin p :
+    registered (fold_right ndel rg fin) p = true <-> registered rg p = true /\ ~ In p fin.
+  Proof.
+    induction fin as [|a fin IH]; simpl.
+    - tauto.
+    - unfold registered at 1. destruct (N.eq_dec p a) as [->|Hne].
+      + rewrite nget_ndel_same. split; [discriminate|]. intros [_ Hn]. exfalso. apply Hn. auto.
+      + rewrite nget_ndel_other by assumption. fold (registered (fold_right ndel rg fin) p).
+        rewrite IH. split; intros [H1 H2]; split; auto.
+        * intros [E|E]; [congruence|auto].
+  Qed.
+
+  Lemma is_root_after_dels fin p :
+    ~ In p fin -> is_root (fold_right ndel rg fin) p = is_root rg p.
+  Proof.
+    induction fin as [|a fin IH]; simpl; intros Hn; [reflexivity|].
+    unfold is_root at 1. rewrite nget_ndel_other by (intros ->; apply Hn; auto).
+    fold (is_root (fold_right ndel rg fin) p). apply IH. tauto.
+  Qed.
+
+  Lemma sweep_spec order m rg' fin :
+    sweep rg order m = (rg', fin) ->
+    (forall p, In p fin <-> In p order /\ registered rg p = true /\ is_root rg p = false /\ marked m p = false) /\
+    (forall p, registered rg' p = true <-> registered rg p = true /\ ~ In p fin) /\
+    (NoDup order -> NoDup fin).
+  Proof.
+    unfold sweep. intros H. inversion H; subst. clear H. split; [|split].
+    - intros p. rewrite filter_In. unfold doomed. rewrite !andb_true_iff, !negb_true_iff. tauto.
+    - intros p. apply registered_after_dels.
+    - apply NoDup_filter.
+  Qed.
+End Sweep.
+
 (* ------------------------------------------------------------------ pre-repair variants *)
 
 (* D16: the TLS table is handed GC_Mark_Item: an object reachable only from a TLS value is
